@@ -15,7 +15,7 @@ the pipeline: macro expansion (3), the evaluator (5), …
 import RuschmProofs.LocLemmas
 
 namespace Ruschm.C15
-open Ruschm Eval
+open Ruschm Eval Interp
 
 /-! ## 3. macro expansion: every position of an expansion is a position of the macro use -/
 
@@ -162,5 +162,80 @@ theorem store_locs_grow {n : Nat} {σ σ' : Store} {ρ : Nat} {e : Expr} {r : Ex
     rcases List.mem_append.1 (hp.2.1 v hv hr) with h | h
     · exact Or.inl (mem_unrole.2 ⟨r, h⟩)
     · exact Or.inr (mem_unrole.2 ⟨r, h⟩)
+
+/-! ## 4. the transformer: every position of a statement is a position of its datum -/
+
+/-- Every position in the statement `toStatement` returns — through arbitrarily many macro
+expansions — is a position of the datum it was made from. -/
+theorem xform_locs {fuel : Nat} {d : Datum} {env env' : Xform.SynEnv} {s : Statement}
+    (h : Xform.toStatement fuel d env = (.ok s, env')) : LocsIn (locs d) s := by
+  intro l hl
+  exact (XformLoc.toStatement_locs (fuel := fuel) (d := d) (env := env)).1 s (by rw [h]) hl
+
+/-- A located syntax error of the transformer is located inside the datum. -/
+theorem xform_error_loc {fuel : Nat} {d : Datum} {env env' : Xform.SynEnv} {k : Err} {l : Pos}
+    (h : Xform.toStatement fuel d env = (.error (k, some l), env')) : l ∈ locs d :=
+  (XformLoc.toStatement_locs (fuel := fuel) (d := d) (env := env)).2 _ (by rw [h]) (by simp)
+
+/-- The statement's own position (the fallback position of `eval_ast`) is a position of the
+datum; for a form that is neither `(set! …)` nor a macro use it is the position of the datum
+itself (the form's first token); for `(set! x e)` it is the position of `x`. -/
+theorem xform_stmt_loc {fuel : Nat} {d : Datum} {env env' : Xform.SynEnv} {s : Statement}
+    (h : Xform.toStatement fuel d env = (.ok s, env')) :
+    (∀ l, s.loc = some l → l ∈ locs d) ∧
+    (XformLoc.isSetOrMacroUse env d = false → s.loc = d.loc) ∧
+    (∀ a rest l, d = .pair (.sym "set!" a) rest l →
+      ∃ name tl, rest.elems.head? = some (.sym name tl) ∧ s.loc = tl.orElse (fun _ => l)) := by
+  refine ⟨fun l hl => ?_, fun hd => XformLoc.toStatement_loc_eq (by rw [h]) hd, ?_⟩
+  · apply xform_locs h
+    exact mem_unrole.2 ⟨.node, Statement.loc_rlocs s (by simp [hl, Loc.as])⟩
+  · rintro a rest l rfl
+    exact XformLoc.toStatement_set_loc (by rw [h])
+
+/-- `(let ((x 1)) (car x))` written at 3:1 …: a macro use; every position of the statement is a
+position of the use, none of `grammar.sld` -/
+example : ∃ s env', Xform.toStatement 100
+      (.pair (.sym "my-if" (some (3, 2))) (.pair (.sym "a" (some (3, 8))) (.pair (.sym "b" (some (3, 10)))
+        (.nil none) none) none) (some (3, 1)))
+      [[("my-if", ⟨[], [(.pair (.ident "x") (.pair (.ident "y") .nil),
+          .list [(.ident "if", false), (.ident "x", false), (.ident "y", false)])]⟩)]] = (.ok s, env') ∧
+    s = .expr (.cond (.sym "a" (some (3, 8))) (.sym "b" (some (3, 10))) none (some (3, 1))) :=
+  ⟨_, _, rfl, rfl⟩
+
+/-! ## 6. library sources carry no positions -/
+
+/-- The code of a library read from a source text (`grammar.sld`-expanded `base.sld`, or a user's
+`.sld` file) carries no position at all: the data are stripped before they are transformed. -/
+theorem library_code_unlocated {name : LibName} {text : String} {decls : List LibDecl}
+    (h : factoryOfText name text = .ok (.ast decls)) : locs decls = [] := by
+  have := InterpLoc.factoryOfText_clean name text _ h
+  simp only [Factory.rlocs] at this
+  show unrole (LibDecl.rlocsList decls) = []
+  rw [this]; rfl
+
+/-- Hence instantiating such a library adds no position to the interpreter state: afterwards
+every position of the state was there before, and the exported values carry only positions that
+were there before (none, for a state built from bundled sources only). -/
+theorem library_instance_unlocated {fuel : Nat} {st st' : State} {decls : List LibDecl}
+    {r : Except SErr (List (String × Value))} (hd : locs decls = [])
+    (h : evalLibraryDef fuel st decls = (r, st')) :
+    (∀ l ∈ locs st', l ∈ locs st) ∧ (∀ defs, r = .ok defs → ∀ kv ∈ defs, ∀ l ∈ locs kv.2, l ∈ locs st) := by
+  have hd' : LibDecl.rlocsList decls ⊆ st.rlocs := by
+    rw [unrole_eq_nil (L := LibDecl.rlocsList decls) (by rw [show unrole _ = locs decls from rfl, hd]; simp)]
+    simp
+  have i := (InterpLoc.interpAt (T := st.rlocs) InterpLoc.factoryOfText_clean fuel).libraryDef h
+    (InterpLoc.stIn_iff.2 (fun _ h => h)) hd'
+  refine ⟨fun l hl => unrole_subset (InterpLoc.stIn_iff.1 i.1) hl, fun defs hr kv hkv l hl => ?_⟩
+  exact unrole_subset (i.2.1 defs hr kv hkv) hl
+
+/-- the mechanism on the datum of `(define-library (m) (begin (define (f) y)))` as the reader
+delivers it for a text at line 1: stripped, then transformed — no position is left -/
+example : ∃ n decls l env', Xform.toStatement 100
+      (Datum.strip (.pair (.sym "define-library" (some (1, 16))) (.pair (.pair (.sym "m" (some (1, 19))) (.nil none) (some (1, 18)))
+        (.pair (.pair (.sym "begin" (some (1, 27))) (.pair (.pair (.sym "define" (some (1, 35)))
+          (.pair (.pair (.sym "f" (some (1, 38))) (.nil none) (some (1, 37))) (.pair (.sym "y" (some (1, 41))) (.nil none) none) none)
+          (some (1, 29))) (.nil none) none) (some (1, 22))) (.nil none) none) none) (some (1, 2)))) [[]] =
+      (.ok (.libraryDef n decls l), env') ∧ locs decls = [] :=
+  ⟨_, _, _, _, rfl, rfl⟩
 
 end Ruschm.C15
